@@ -27,7 +27,9 @@ on TYPE texts -- impl headers, parameter types, where clauses -- never on a form
   expressions float literals 0.0 1.0 2.0, + - * /, unary - ! * &, comparisons, && ||, parentheses, tuples, arrays,
              paths with turbofish / `<V>::min`, field access, `.0`, method calls, calls, indexing, `?`, closures
              `|i| e` `|(x, &a)| e` `|&b| e` `|_| e`, blocks, `if` as a value, `match` on Boolean tuples with
-             or-patterns / bindings / `_`, `match op { A | B if g => e, .. }`, struct literals, macros
+             or-patterns / bindings / `_` and a guarded CATCH-ALL arm (`_ if g => e` / `(_, _) if g => e`, rendered as
+             `| _, _ => if g then e else (match <same scrutinee> with <following arms>)`; any other guard there is
+             refused), `match op { A | B if g => e, .. }`, struct literals, macros
              `ulps_eq!(a, b)` `matches!(x, P)`, `return`
 What the back ends (sections 5-6) accept of it is narrower and strict: every construct they do not know makes the
 translator exit with status 2 and a message `rs2lean: <file>: fn <name>: unsupported <construct>`; nothing is
@@ -1062,15 +1064,45 @@ class BiEmit(Emit):
         self.fail("constructed value `%s`" % describe(e))
 
     def matchx(self, e, sc):
-        """`match (e1, e2) { (true, true) | (false, false) => .., (bp, _) => .. }` on booleans"""
+        """`match (e1, e2) { (true, true) | (false, false) => .., (bp, _) => .. }` on booleans; one guard shape is
+        supported: a guarded CATCH-ALL arm `_ if g => ..` / `(_, _) if g => ..` (see `match_arms`)"""
         if e[1][0] != "tuple":
             self.fail("`match` on a non-tuple scrutinee")
         n = len(e[1][1])
         scr = ", ".join(self.ex(x, sc)[0] for x in e[1][1])
+        return self.match_arms(scr, n, e[2], sc)
+
+    def match_arms(self, scr, n, arms_in, sc):
+        """Lean `match` for the arms `arms_in` (tried in order, as in Rust) over the scrutinee text `scr`.
+
+        Guarded arm.  Rust: the arms are tried in order; an arm whose pattern matches but whose guard is false is
+        skipped and the FOLLOWING arms are tried.  For a catch-all pattern (`_`, or a tuple of `_`: it binds nothing and
+        matches every value that the earlier arms left over) this is rendered as
+
+            | _, _ => if <guard> then <body> else (match <same scrutinee> with <the following arms>)
+
+        Re-matching the same scrutinee is sound because every scrutinee component that `ex` can translate is a pure
+        expression (comparisons / arithmetic on `Scalar` values, no `?`: `hoist_try` refuses `?` under a `match`), and
+        the guard is translated in the scope of the `match` itself (a catch-all pattern introduces no name).  The inner
+        `match` holds only the following arms: the values taken by the earlier arms never reach it.  If those arms alone
+        are not exhaustive for Lean, the definition is rejected by --validate and becomes a hole (never a wrong text).
+        Every other guard shape (a guard on a literal / binding pattern, on an or-pattern, on the last arm) fails."""
         arms = []
-        for pats, guard, body in e[2]:
+        for idx, (pats, guard, body) in enumerate(arms_in):
             if guard is not None:
-                self.fail("match guard")
+                p = pats[0]
+                catch_all = len(pats) == 1 and (
+                    p[0] == "pwild" or (p[0] == "ptuple" and len(p[1]) == n and all(c[0] == "pwild" for c in p[1])))
+                if not catch_all:
+                    self.fail("match guard on a pattern that is not a catch-all (`_` or a tuple of `_`)")
+                rest = arms_in[idx + 1:]
+                if not rest:
+                    self.fail("match guard on the last arm (no arm to fall through to)")
+                g = self.ex(guard, sc)
+                th = self.ex(body, sc)
+                el = self.match_arms(scr, n, rest, sc)
+                arms.append("| " + ", ".join(["_"] * n) + " =>\n" + ind("(" + self.mkif(g, th, el, False) + ")", 4))
+                break            # the following arms live in the `else` branch
             alts, sc2 = [], dict(sc)
             for p in pats:
                 if p[0] != "ptuple" or len(p[1]) != n:
